@@ -613,8 +613,10 @@ func (s *BaseNodeService) reinitDKG(message storage.Message) error {
 	operations := make([]*types.Operation, 0)
 	var replayClock time.Time
 	for _, msg := range req.Messages {
-		if fsm.Event(msg.Event) == sif.EventSigningStart {
-			break
+		// the key generation is replayed: messages of the signing phase are left out wherever they
+		// stand (as the tool that builds the file does), rather than ending the replay at the first
+		if types.IsSigningPhaseEvent(fsm.Event(msg.Event)) {
+			continue
 		}
 		// messages of other rounds are not part of this reinitialisation
 		if msg.DkgRoundID != req.DKGID {
